@@ -10,6 +10,7 @@ C03 — parity partners carry exactly the parity sign of the flipped nodes.
 Only property theorems (and non-vacuity examples) live here.
 -/
 import Ampverif.Lemmas.C03Parity
+import Ampverif.Lemmas.C03ParityRule
 import Ampverif.Lemmas.C03CG
 import Ampverif.Lemmas.C03CGBlocks
 import Mathlib.Tactic.FieldSimp
@@ -63,7 +64,37 @@ theorem C03_ratio_int (v : Variant) (hs : v.sound) (f : Flags) (ts : List Chain)
       = prefactorVal v f (registerAll f ts) c₂ * differingProduct f c₁ c₂ :=
   ratio_of_unique v hs f _ (C03_register_unique_partner f ts hwf) c₁ c₂ hc hsame
 
-/-! ### witnesses for the two unsound rules (replayable on the real code) -/
+/-! ### the product runs over the NODES of the chain (multiplicities count) -/
+
+/-- **C03 (ratio), three-switch rule.** As `C03_ratio_int`, for the rule the harness drives
+(`Model/C03ParityRule.lean`): `sound` now also demands one factor per flipped NODE. -/
+theorem C03_ratio_rule (r : Rule) (hs : r.sound) (f : Flags) (ts : List Chain)
+    (hwf : partnerInjective f ts.flatten = true) (c₁ c₂ : Chain)
+    (hc : compatible c₁ c₂ = true) (hsame : sameCoefficient f (registerAll f ts) c₁ c₂ = true) :
+    prefactorValR r f (registerAll f ts) c₁
+      = prefactorValR r f (registerAll f ts) c₂ * differingProduct f c₁ c₂ := by
+  rw [prefactorValR_sound r hs, prefactorValR_sound r hs,
+    ← prefactorVal_sound r.v hs.1, ← prefactorVal_sound r.v hs.1]
+  exact C03_ratio_int r.v hs.1 f ts hwf c₁ c₂ hc hsame
+
+/-- Under the sound rule the factor of a chain is multiplicative over its list of nodes: any chain
+`c₁ ++ c₂` (any lengths) gets the product of the factors of its two parts. -/
+theorem C03_prefactor_append (r : Rule) (hs : r.sound) (f : Flags) (m : Mapping) (c₁ c₂ : Chain) :
+    prefactorValR r f m (c₁ ++ c₂) = prefactorValR r f m c₁ * prefactorValR r f m c₂ := by
+  simp only [prefactorValR_sound r hs]
+  exact flippedProduct_append f m c₁ c₂
+
+/-- **Multiplicity.** Under the sound rule a two-body decay `n` that occurs at `k` nodes of one chain
+contributes its factor `k` times (`η^k` if it is a mapped partner): equal decays are NOT merged. -/
+theorem C03_prefactor_multiplicity (r : Rule) (hs : r.sound) (f : Flags) (m : Mapping) (n : Node)
+    (k : Nat) (c : Chain) :
+    prefactorValR r f m (List.replicate k n ++ c)
+      = (if isFlipped f m n then etaVal n else 1) ^ k * prefactorValR r f m c := by
+  rw [C03_prefactor_append r hs, prefactorValR_sound r hs f m (List.replicate k n),
+    flippedProduct_replicate]
+  rfl
+
+/-! ### witnesses for the unsound rules (replayable on the real code) -/
 
 namespace Witness
 
@@ -87,6 +118,16 @@ def pi0 : St := ⟨"pi0", "\\pi^{0}", 0⟩
 /-- χc1 → N̄(1440)⁻ p, N̄ → π⁰ p̄ with helicities `(a, b; c)`; `η₀ = η₁ = −1`. -/
 def nChain (a b c : Int) : Chain :=
   [⟨chic1, prot b, nBar a, some (-1), none⟩, ⟨nBar a, pbar c, pi0, some (-1), none⟩]
+
+def chic0 : St := ⟨"chi(c0)(1P)", "\\chi_{c0}(1P)", 0⟩
+def omega (h : Int) : St := ⟨"omega(782)", "\\omega(782)", h⟩
+def gamma (h : Int) : St := ⟨"gamma", "\\gamma", h⟩
+
+/-- χc0 → ω ω, ω → γ π⁰ (twice) with helicities `(h, h; g₀, g₁)`; `η₀ = +1`, `η₁ = η₂ = −1`
+(corpus reaction `chic0_vv.hel.json`). -/
+def vvChain (h g0 g1 : Int) : Chain :=
+  [⟨chic0, omega h, omega h, some 1, none⟩, ⟨omega h, gamma g0, pi0, some (-1), none⟩,
+   ⟨omega h, gamma g1, pi0, some (-1), none⟩]
 
 end Witness
 
@@ -114,6 +155,24 @@ theorem C03_witness_guard :
     ∧ differingProduct flags (nChain 1 1 (-1)) (nChain 1 1 1) = -1
     ∧ prefactorVal ⟨true, false⟩ flags m (nChain 1 1 1) = 1
     ∧ prefactorVal ⟨true, false⟩ flags m (nChain 1 1 (-1)) = 1 := by
+  decide
+
+open Witness in
+/-- A rule that collects the factors of the flipped nodes under their coefficient suffix (a dict) and
+multiplies the dict values: the chain `(+1,+1;−1,−1)` differs from `(+1,+1;+1,+1)` at nodes 1 and 2, which
+are the same two-body decay `ω → γ₋₁ π⁰` (`η = −1` each, product `+1`), but it gets `−1`. The sound
+rule gives `+1` on the same input. -/
+theorem C03_witness_suffix_keyed :
+    let ts := [vvChain 2 2 2, vvChain 2 (-2) (-2)]
+    let m := registerAll flags ts
+    partnerInjective flags ts.flatten = true
+    ∧ sameCoefficient flags m (vvChain 2 (-2) (-2)) (vvChain 2 2 2) = true
+    ∧ compatible (vvChain 2 (-2) (-2)) (vvChain 2 2 2) = true
+    ∧ differingProduct flags (vvChain 2 (-2) (-2)) (vvChain 2 2 2) = 1
+    ∧ repeatedFlipped flags m (vvChain 2 (-2) (-2)) [] = 1
+    ∧ prefactorValR ⟨⟨true, true⟩, false⟩ flags m (vvChain 2 2 2) = 1
+    ∧ prefactorValR ⟨⟨true, true⟩, false⟩ flags m (vvChain 2 (-2) (-2)) = -1
+    ∧ prefactorValR ⟨⟨true, true⟩, true⟩ flags m (vvChain 2 (-2) (-2)) = 1 := by
   decide
 
 open Witness in
